@@ -29,8 +29,8 @@ ScalarValue(cp) == cp >= 0 /\ cp <= 1114111 /\ ~(cp >= 55296 /\ cp <= 57343)
 ------------------------------------------------------------------------------
 (* identifiers (TLC strings) as code points                                 *)
 
-TcAlphabet == "ABCDEFGHIJKLMNOPQRSTUVWXYZabcdefghijklmnopqrstuvwxyz0123456789-_. "
-TcCodes == [i \in 1..26 |-> 64 + i] \o [i \in 1..26 |-> 96 + i] \o [i \in 1..10 |-> 47 + i] \o <<45, 95, 46, 32>>
+TcAlphabet == "ABCDEFGHIJKLMNOPQRSTUVWXYZabcdefghijklmnopqrstuvwxyz0123456789-_. +"
+TcCodes == [i \in 1..26 |-> 64 + i] \o [i \in 1..26 |-> 96 + i] \o [i \in 1..10 |-> 47 + i] \o <<45, 95, 46, 32, 43>>
 TcCodeOf == [c \in {SubSeq(TcAlphabet, i, i) : i \in 1..Len(TcAlphabet)} |->
                TcCodes[CHOOSE i \in 1..Len(TcAlphabet) : SubSeq(TcAlphabet, i, i) = c]]
 
